@@ -54,6 +54,29 @@ def vecForm (f : String) (w : SM.Vec) : Option VExpr :=
 def selfOut (m : SM) (al : Bool) (d : Raw) : String :=
   s!"alias={if al then 1 else 0} " ++ rawView m d
 
+/-- the second Storage object (matrix N of `cmp`, matrix B of `act`) occupies addresses 10000, 10001, … of the
+    model's single address space: two allocations never overlap, which is all `is_aliased` looks at -/
+def base2 : Int := 10000
+
+def p3 (k : Int) : Int := if k % 3 = 0 then 1 else if k % 3 = 1 then 2 else 4
+
+/-- raw fills of `cmp`: M k+1, N 1001+k; for `/=` M 8(k+1), N {1,2,4}[k%3] -/
+def dCmp (dv : Bool) : Raw :=
+  ⟨fun k => if k ≥ base2 then (if dv then p3 (k - base2) else 1001 + (k - base2)) else (if dv then 8 * (k + 1) else k + 1)⟩
+
+def binOp? (s : String) : Option BinOp :=
+  if s = "add" then some .add else if s = "sub" then some .sub else if s = "mul" then some .mul
+  else if s = "div" then some .div else none
+
+def gradName (g : Int) : String :=
+  if g = -1 then "x" else if g ≥ base2 then s!"b{g - base2}" else s!"a{g}"
+
+/-- text of `tape_dump(...)` in the harness -/
+def showTape (t : List SM.Stmt) : String :=
+  if t.isEmpty then "-" else
+  ";".intercalate (t.map (fun s =>
+    gradName s.lhs ++ ":" ++ "+".intercalate (s.ops.map (fun (mu, g) => s!"{mu}*{gradName g}"))))
+
 def parseEngine (name l u : String) : Option Engine :=
   match l.toInt?, u.toInt? with
   | some l, some u =>
@@ -236,6 +259,53 @@ def run (op : String) (e : Engine) (n : Int) (args : List String) : String :=
           if v.len ≠ w.len then "mismatch" else
           selfOut m (rhs.isAliased v.dataBegin v.dataEnd) (v.assignExpr rhs dM)
         | none => "bad-op"
+      | _, _ => "oob"
+    | _, _ => "bad-op"
+  | "cmp", [tv, a, b, op, form, src, c, d] =>
+    match a.toInt?, b.toInt?, c.toInt?, d.toInt?, binOp? op with
+    | some a, some b, some c, some d, some o =>
+      let leaf := form == "cp" || form == "k2" || form == "T" || form == "mixT"
+      if tv != "v" && tv != "t" then "bad-op"
+      else if !leaf && !((form == "c" || form == "D") && src == "-" && c == 0 && d == 0) then "bad-op"
+      else if leaf && src != "m" && src != "n" then "bad-op"
+      else
+      let dv := o == BinOp.div
+      let mN : SM := { m with base := base2 }
+      match m.sub a b, (if leaf then (if src == "m" then m else mN).sub c d else m.sub a b) with
+      | some x, some y0 =>
+        let v := if tv == "t" then x.T else x
+        let y := if tv == "t" then y0.T else y0
+        if leaf && v.dim != y.dim then "mismatch"
+        else if form == "c" then selfOut m false (v.compoundScalar o 2 (dCmp dv))
+        else
+          let rhs? : Option AExpr :=
+            if form == "D" then some (.dense (fun i j => if dv then p3 (i + 2 * j) else 100 * i + j + 1) 0 0)
+            else blockForm form y
+          match rhs? with
+          | some rhs => selfOut m (rhs.isAliased v.dataBegin v.dataEnd) (v.compound o rhs (dCmp dv))
+          | none => "bad-op"
+      | _, _ => "oob"
+    | _, _, _, _, _ => "bad-op"
+  | "act", [tv, a, b, kind] =>
+    match a.toInt?, b.toInt? with
+    | some a, some b =>
+      if tv != "v" && tv != "t" then "bad-op" else
+      let mB : SM := { m with base := base2 }
+      match m.sub a b, mB.sub a b with
+      | some x, some bx =>
+        let v := if tv == "t" then x.T else x
+        let bv := if tv == "t" then bx.T else bx
+        let dd := dCmp false
+        if kind == "x" then
+          let r := v.assignActiveScalar 7 (-1) dd
+          rawView m r.1 ++ " tape=" ++ showTape r.2
+        else if kind == "c" then
+          rawView m (v.assign (.dense (fun _ _ => 5)) dd) ++ " tape=" ++ showTape v.recPassiveScalar
+        else if kind == "cp" || kind == "k2" || kind == "T" || kind == "mixT" then
+          match blockForm kind bv with
+          | some rhs => rawView m (v.assignExpr rhs dd) ++ " tape=" ++ showTape (v.recExpr rhs)
+          | none => "bad-op"
+        else "bad-op"
       | _, _ => "oob"
     | _, _ => "bad-op"
   | "dmat", [st] =>
